@@ -130,6 +130,13 @@ where
             }));
         }
 
+        if (!last && next_offset > data.bytes().len()) || payload_offset > data.bytes().len() {
+            return Some(Err(Error {
+                kind: ErrorKind::InsufficientSize,
+                pos: self.pos,
+            }));
+        }
+
         let data = if !last {
             let (data, next_data) = data.split(next_offset);
             self.data = Some(next_data);
